@@ -695,6 +695,14 @@ func Replay(h *Harness, cfg map[string]string, choices []int32) (fails []Failure
 
 var traceNext bool
 
+func sigsOf(fs []Failure) string {
+	var sb strings.Builder
+	for _, f := range fs {
+		sb.WriteString(f.Clause + "|" + f.Sig + ";")
+	}
+	return sb.String()
+}
+
 // ---------------------------------------------------------------------------------------------
 // command-line entry used by every harness test binary
 
@@ -759,7 +767,8 @@ func Main(harnesses ...*Harness) {
 			f, o, p, st := Replay(h, a.Cfg, a.Choices)
 			if i == 0 {
 				r.Fails, r.Obs, r.Points, r.Steps = f, o, p, st
-			} else if fmt.Sprint(f) != fmt.Sprint(r.Fails) || strings.Join(o, ";") != strings.Join(r.Obs, ";") {
+			} else if sigsOf(f) != sigsOf(r.Fails) || strings.Join(o, ";") != strings.Join(r.Obs, ";") {
+				// messages may contain addresses (panic stacks); signatures and observations must agree
 				r.Stable = false
 			}
 		}
